@@ -176,11 +176,14 @@ def kernelResidualOp (j : Json) : R Json := do
     let Vh ← matf n n j "vh"
     let U ← matf m m j "u"
     let s ← qArr (← field j "s")
-    let Sg : Matrix (Fin m) (Fin n) ℚ := fun a b => if a.val = b.val then s[a.val]! else 0
+    let Sg : Matrix (Fin m) (Fin n) ℚ := sigmaMat m s.toList
     let T := DMat.ofMatrix (U * Sg)
     let C1 := DMat.ofMatrix (T.toMatrix * Vh - A)
     let C2 := DMat.ofMatrix (Vh * Vhᵀ - 1)
-    res := res ++ [("svd_recon", ofQ (maxAbs C1.toMatrix)), ("svd_orth", ofQ (maxAbs C2.toMatrix))]
+    let C3 := DMat.ofMatrix (U * Uᵀ - 1)
+    let sorted := s.toList.Pairwise (fun a b => b ≤ a) && s.all (fun x => 0 ≤ x)
+    res := res ++ [("svd_recon", ofQ (maxAbs C1.toMatrix)), ("svd_orth", ofQ (max (maxAbs C2.toMatrix) (maxAbs C3.toMatrix))),
+      ("svd_sorted", Json.bool sorted), ("svd_len", Json.num (s.size : Int))]
   | .error _ => pure ()
   return Json.mkObj res
 
@@ -216,9 +219,19 @@ def rightToLeftOp (j : Json) : R Json := do
 def arcIncludeOp (j : Json) : R Json := do
   return pairOf (arcInclude (← qf j "pi") (← qf j "a", ← qf j "b") (← qf j "ref"))
 
+/-- `circle_angles` as `(cos θ, sin θ)`, exactly (the squared distance must be a rational square) -/
+def circleAngleOp (j : Json) : R Json := do
+  let c ← vecf 2 j "center"
+  let p ← vecf 2 j "p"
+  let d2 := (p 0 - c 0) * (p 0 - c 0) + (p 1 - c 1) * (p 1 - c 1)
+  if d2 = 0 then throw "DivZero"
+  if !isSq d2 then throw "irrational-root"
+  return pairOf (circleAngleCS rsqrt c p)
+
 def ops : List (String × Handler) :=
   [("c18.gs", gsOp), ("c18.ortho", orthoOp), ("c18.find_isometry", findIsoOp), ("c18.gram", gramOp),
    ("c18.order", orderOp), ("c18.diag_residual", diagResidualOp), ("c18.diagonalize", diagonalizeOp),
    ("c18.svd_kernel", svdKernelOp), ("c18.kernel_residual", kernelResidualOp), ("c18.sphere", sphereOp),
-   ("c18.short_arc", shortArcOp), ("c18.right_to_left", rightToLeftOp), ("c18.arc_include", arcIncludeOp)]
+   ("c18.short_arc", shortArcOp), ("c18.right_to_left", rightToLeftOp), ("c18.arc_include", arcIncludeOp),
+   ("c18.circle_angle", circleAngleOp)]
 end GT.Driver.C18
